@@ -532,7 +532,7 @@ theorem benignP_applyCmd (s : St) (c : Cmd) : BenignP s (applyCmd s c) := by
     · exact (BenignS.refl s).toP
   case insReact e ty =>
     split
-    · exact (BenignS.refl s).toP
+    · exact (same_emit _ _).benignS.toP
     · p_push_same
   case mutReact e ty => p_push_same
   case register trigs sys mode =>
